@@ -3,7 +3,7 @@ CONSTANTS
   ModelDecoders = {}
   ModelLens = {}
   Env = {}
-  SweepFirst = 2
+  SweepFirst = 4
   MaxFields = 48
   TruncEveryMax = 400
 INVARIANTS PlanWellFormed Emit
